@@ -43,7 +43,9 @@ def gen_class(rng):
         style = rng.choice(["raise", "yield", "yield_path"])
         in_base = nb > 0 and rng.random() < 0.3 and all(d in names[:nb] for d in deps) and (fld is None or fld in names[:nb]) \
             and (disc is None or all(d in names[:nb] for d in disc))
-        vals.append(dict(id=k, deps=sorted(set(deps)), helper=via_helper, field=fld, discard=disc, style=style, base=in_base))
+        helper_in_base = via_helper and not in_base and nb > 0 and all(d in names[:nb] for d in deps) and rng.random() < 0.6
+        vals.append(dict(id=k, deps=sorted(set(deps)), helper=via_helper, field=fld, discard=disc, style=style, base=in_base,
+                         helper_in_base=helper_in_base))
     return dict(fields=fields, validators=vals, nb=nb)
 
 
@@ -51,7 +53,7 @@ def class_src(c):
     L = ["from dataclasses import dataclass, field", "from apischema import validator, ValidationError, alias",
          "LOG = []", "FAIL = set()", "CONSTRUCTED = []", ""]
 
-    def emit_class(name, base, fields, validators):
+    def emit_class(name, base, fields, validators, extra_helpers=()):
         L.append("@dataclass")
         L.append(f"class {name}({base}):" if base else f"class {name}:")
         for f in fields:
@@ -62,10 +64,12 @@ def class_src(c):
                 L.append(f"    {f['name']}: int = field(default=0" + (", " + md if md else "") + ")")
         for v in validators:
             args = []
+            own = {f["name"] for f in fields}
+            ref = (lambda n: n if n in own else repr(n))    # a field of the base class is referred to by its name
             if v["field"]:
-                args.append(v["field"])
+                args.append(ref(v["field"]))
             if v["discard"] is not None:
-                args.append("discard=[" + ", ".join(v["discard"]) + "]")
+                args.append("discard=[" + ", ".join(ref(d) for d in v["discard"]) + "]")
             L.append(f"    @validator({', '.join(args)})" if args else "    @validator")
             L.append(f"    def v{v['id']}(self):")
             L.append(f"        LOG.append({v['id']})")
@@ -82,9 +86,12 @@ def class_src(c):
             else:
                 L.append(f"        if {v['id']} in FAIL: yield ('sub', 1), 'v{v['id']} failed'")
                 L.append("        if False: yield 'never'")
-            if v["helper"]:
+            if v["helper"] and not v.get("helper_in_base"):
                 L.append(f"    def helper{v['id']}(self):")
                 L.append("        return (" + ", ".join(f"self.{d}" for d in v["deps"]) + ",)")
+        for v in extra_helpers:
+            L.append(f"    def helper{v['id']}(self):")
+            L.append("        return (" + ", ".join(f"self.{d}" for d in v["deps"]) + ",)")
         if not fields and not validators:
             L.append("    pass")
         L.append("    def __post_init__(self):")
@@ -95,7 +102,7 @@ def class_src(c):
     bv = [v for v in c["validators"] if v["base"]]
     ov = [v for v in c["validators"] if not v["base"]]
     if bf:
-        emit_class("Base", None, bf, bv)
+        emit_class("Base", None, bf, bv, [v for v in ov if v.get("helper_in_base")])
         emit_class("A", "Base", of, ov)
     else:
         emit_class("A", None, of, bv + ov)
